@@ -219,6 +219,19 @@ def _check(v, with_ignored):
             if o != ("ok", (wantb, False)):
                 bad.append({"what": "a boolean array over a stream, converted back, is not the intervals of its True runs",
                             "tags": dict(tags, step="streamed-bool-get_data"), "vector": v, "expected": wantb, "observed": str(o)[:400]})
+    if tree[0] == "A" and bg:
+        # integer values beyond 2^53: the sum of the array is the exact integer sum of the dense array (it does not go through a double)
+        K = 2 ** 53 + 1
+        want_big = sum((int(r["v"]) + K) * (r["e"] - r["s"]) for r in bg)
+
+        def big_sum():
+            T = g.get_track(BedGraph(chrom, st, en, vals.astype(np.int64) + K))
+            return int(T.sum()), int(np.sum(T)), type(T.sum()).__name__ != "float"
+        o = outcome(big_sum)
+        n += 1
+        if o != ("ok", (want_big, want_big, True)):
+            bad.append({"what": "the sum of an integer-valued genomic array with values beyond 2^53 is not the exact integer sum of the dense array", "tags": dict(tags, step="sum-beyond-2^53"),
+                        "vector": v, "expected": want_big, "observed": str(o)[:200]})
     # float-valued and boolean tracks are lossless too (identity tree only)
     if tree[0] == "A" and bg:
         for kind, vv, want in (("float", vals * 0.5, [[x * 0.5 for x in row] for row in v["A"]]),
